@@ -60,6 +60,7 @@ inductive Op
   | swDec (r : Nat)
   | bDec (r : Nat)      -- back(): inUseEvents.Dec()
   | bBcast (r : Nat)    -- back(): getCond.Broadcast()
+  | mark (r : Nat)      -- the holder changes its event's kind (processor.Spawn: SetChildParentKind); no pool state
   | hbRead              -- wakeupWaiters: reads slowWaiters and eventsAvailable()
   | hbFire              -- wakeupWaiters: Broadcast if it decided so
   deriving DecidableEq, Repr
@@ -107,6 +108,7 @@ def step? (c : Cfg) (s : St) : Op → Option St
     else none
   | .bBcast r =>
     if s.pcs[r]? = some .backing then some (broadcast (setPc s r .idle)) else none
+  | .mark r => if s.pcs[r]? = some .holding then some s else none
   | .hbRead =>
     some { s with hbArmed := decide (s.sw > 0) && (if c.hbNeg then !avail c s else avail c s) }
   | .hbFire =>
@@ -203,6 +205,7 @@ inductive Op
   | waitEnq (r : Nat) | relock (r : Nat) | unlock (r : Nat) | swDec (r : Nat)
   | take (r : Nat) | iInc (r : Nat)
   | bstart (r : Nat) | btkt (r : Nat) | bcas (r : Nat) | bput (r : Nat) | bDec (r : Nat) | bBcast (r : Nat)
+  | mark (r : Nat)   -- the holder changes its event's kind (Spawn: child-parent); back() must not care
   | hbRead | hbFire
   deriving DecidableEq, Repr
 
@@ -313,6 +316,10 @@ def step? (s : St) : Op → Option St
     if s.pcs[r]? = some .bdec then some (setPc { s with inUse := s.inUse - 1 } r .bbc) else none
   | .bBcast r =>
     if s.pcs[r]? = some .bbc then some (broadcast (setPc s r .idle)) else none
+  | .mark r =>
+    match s.pcs[r]? with
+    | some (.holding _) => some s
+    | _ => none
   | .hbRead => some { s with hbArmed := decide (s.sw > 0) && decide (s.inUse < s.cap) }
   | .hbFire => some (if s.hbArmed then { broadcast s with hbArmed := false } else s)
 
